@@ -1,11 +1,20 @@
 import Compute.Lemmas.FlModelGrid
-import Compute.Props.Rounding6
+import Compute.Props.Rounding8
 import Mathlib.Tactic.NormNum
 /-
 Headline rounding theorems instantiated at a GENUINE floating-point model: `FlModel.f64grid` = radix 2, 53 digits,
 round to nearest, unbounded exponent range (`Lemmas/FlModelGrid.lean`), `u = 2⁻⁵³`.  The hypotheses `Idem`,
 `rnd 1 = 1`, `Rep` (data representable), `rnd n = n` (exact counter / exact `n as f64`) are discharged by theorems
 about that rounding (`grid_idem`, `grid_rnd_one`, `grid_rnd_natCast`, `grid_rnd_dyadic`) — not by a toy model.
+
+`namespace Step`: a complete GLM scoring step evaluated in this model (every operation exact on small dyadic
+numbers, except the final `β ⊖ δ̂` which absorbs the nonzero step), and on it `RoundingLU.solve_backward_error`,
+`Rounding7.scoringStep_system`, `Rounding7.scoring_fixed_point`, `Rounding8.fixed_point_exact_score` at `u = 2⁻⁵³`.
+
+`namespace Ufl`: the underflow-aware range theorems (`Rounding3U.logistic_range_ufl`, `rbf_range_ufl`) at this model with a
+flush-to-zero `exp`; `Monotone rnd` is `f64grid_mono`.
+
+`namespace AR`: a concrete `TS.arFit 2 … = some …` run in this model (C13), and `Rounding6.yuleWalker_residual` on it.
 -/
 namespace Cv.RoundingGrid
 open Cv Cv.FlModel Cv.Rounding
@@ -87,3 +96,414 @@ example : (⟨(2 : ℝ) ^ 60⟩ : Fl f64grid) - ⟨1⟩ = ⟨(2 : ℝ) ^ 60⟩ :
   rw [hr]; norm_num
 
 end Cv.RoundingGrid
+
+/-! ### a complete scoring step at the genuine model -/
+
+namespace Cv.RoundingGrid.Step
+open Cv Cv.FlModel Cv.LA Cv.LA.Lu Cv.Rounding Cv.FactorRounding Cv.RoundingLU Cv.Rounding3 Cv.Rounding6 Cv.Rounding7
+  Cv.Glm Finset
+open Cv.RoundingLU.Examples (mk_add mk_sub mk_mul mk_div)
+
+noncomputable instance : FlSqrt f64grid := FlSqrt.ofRnd f64grid
+
+theorem rnd_int (z : ℤ) (hz : |z| ≤ 2 ^ 53) : f64grid.rnd (z : ℝ) = z := by
+  have := grid_rnd_dyadic 53 (by norm_num) z 0 hz
+  simpa using this
+
+theorem r0 : f64grid.rnd 0 = 0 := by simpa using rnd_int 0 (by norm_num)
+theorem r1 : f64grid.rnd 1 = 1 := by simpa using rnd_int 1 (by norm_num)
+theorem rm1 : f64grid.rnd (-1) = -1 := by simpa using rnd_int (-1) (by norm_num)
+theorem rE : f64grid.rnd 4503599627370496 = 4503599627370496 := by
+  simpa using rnd_int 4503599627370496 (by norm_num)
+theorem rB : f64grid.rnd 36028797018963968 = 36028797018963968 := by
+  have := grid_rnd_two_zpow 53 (by norm_num) 55
+  norm_num at this
+  exact this
+theorem rmB : f64grid.rnd (-36028797018963968) = -36028797018963968 := by
+  have := grid_rnd_of_rep 53 (by norm_num) (y := -36028797018963968) ⟨-1, 55, by norm_num, by norm_num⟩
+  exact this
+
+/-- `2⁵⁵ ⊖ 1 = 2⁵⁵` in binary64-significand arithmetic (the spacing of the grid below `2⁵⁵` is 4) -/
+theorem rAbs : f64grid.rnd (36028797018963968 - 1) = 36028797018963968 := by
+  show gridRnd 53 ((36028797018963968 : ℝ) - 1) = 36028797018963968
+  have hlog : Int.log 2 |(36028797018963968 : ℝ) - 1| = 54 := by
+    rw [abs_of_pos (by norm_num)]
+    have h1 : ((2 : ℕ) : ℝ) ^ (54 : ℤ) ≤ (36028797018963968 : ℝ) - 1 := by norm_num
+    have h2 : (36028797018963968 : ℝ) - 1 < ((2 : ℕ) : ℝ) ^ ((54 : ℤ) + 1) := by norm_num
+    have a := (Int.zpow_le_iff_le_log (b := 2) (by norm_num) (by norm_num : (0 : ℝ) < 36028797018963968 - 1)).mp h1
+    have b := (Int.lt_zpow_iff_log_lt (b := 2) (by norm_num) (by norm_num : (0 : ℝ) < 36028797018963968 - 1)).mp h2
+    omega
+  unfold gridRnd ulp
+  rw [hlog]
+  have e : ((36028797018963968 : ℝ) - 1) / (2 : ℝ) ^ ((54 : ℤ) - (((53 : ℕ) : ℤ) - 1)) = (9007199254740992 : ℤ) - 1 / 4 := by
+    norm_num
+  rw [e]
+  have hr : round (((9007199254740992 : ℤ) : ℝ) - 1 / 4) = 9007199254740992 := by
+    rw [round_eq]
+    have : ((9007199254740992 : ℤ) : ℝ) - 1 / 4 + 1 / 2 = ((9007199254740992 : ℤ) : ℝ) + 1 / 4 := by ring
+    rw [this, Int.floor_intCast_add]
+    norm_num
+  rw [hr]
+  norm_num
+
+noncomputable abbrev Xg : List (Fl f64grid) := [⟨1⟩, ⟨0⟩, ⟨0⟩, ⟨1⟩]
+noncomputable abbrev oG : List (Fl f64grid) := [⟨1⟩, ⟨1⟩]
+noncomputable abbrev muG : List (Fl f64grid) := [⟨0⟩, ⟨0⟩]
+noncomputable abbrev yG : List (Fl f64grid) := [⟨-1⟩, ⟨-1⟩]
+/-- `β = (2⁵⁵, 2⁵⁵)` -/
+noncomputable abbrev bG : List (Fl f64grid) := [⟨36028797018963968⟩, ⟨36028797018963968⟩]
+/-- offsets `−2⁵⁵` -/
+noncomputable abbrev offG : List (Fl f64grid) := [⟨-36028797018963968⟩, ⟨-36028797018963968⟩]
+
+theorem zero_mk : (0 : Fl f64grid) = ⟨0⟩ := rfl
+theorem sqrt_mk (a : ℝ) : Transc.sqrt (⟨a⟩ : Fl f64grid) = ⟨f64grid.rnd (Real.sqrt a)⟩ := rfl
+theorem isM42 : LA.isMatrix 4 2 = some 2 := by decide
+
+theorem wwG : workingWeights oG oG oG = some oG := by
+  unfold workingWeights
+  rw [C06L.vbin_eq _ oG oG rfl]
+  simp only [Option.bind_eq_bind, Option.bind_some]
+  rw [C06L.vbin_eq _ oG _ (by simp)]
+  simp only [Option.bind_some]
+  rw [C06L.vbin_eq _ _ oG (by simp)]
+  simp only [List.zipWith_cons_cons, List.zipWith_nil_right, mk_mul, mk_div, Option.some.injEq,
+    List.cons.injEq, and_true, Fl.mk.injEq]
+  norm_num [r1]
+
+theorem rG : workingResiduals yG muG oG oG oG = some yG := by
+  unfold workingResiduals
+  rw [C06L.vbin_eq _ yG muG rfl]
+  simp only [Option.bind_eq_bind, Option.bind_some]
+  rw [C06L.vbin_eq _ oG _ (by simp)]
+  simp only [Option.bind_some]
+  rw [C06L.vbin_eq _ oG oG rfl]
+  simp only [Option.bind_some]
+  rw [C06L.vbin_eq _ _ _ (by simp)]
+  simp only [List.zipWith_cons_cons, List.zipWith_nil_right, mk_mul, mk_div, mk_sub, Option.some.injEq,
+    List.cons.injEq, and_true, Fl.mk.injEq]
+  norm_num [r1, rm1]
+
+theorem gGv : computeDbeta Xg yG muG oG oG oG = some oG := by
+  simp only [computeDbeta, show yG.length = 2 from rfl, C05L.isMatrix_of_len (show Xg.length = 2 * 2 from rfl) (by norm_num),
+    rG, Option.bind_eq_bind, Option.bind_some, Option.pure_def]
+  simp only [dbetaCell, List.range_succ, List.range_zero, List.nil_append, List.cons_append, List.map_cons, List.map_nil,
+    List.foldl_cons, List.foldl_nil]
+  simp
+  constructor <;> (apply Fl.ext; simp only [Fl.sub_val, Fl.mul_val, Fl.zero_val]; norm_num [r0, r1, rm1])
+
+theorem wxG : weightedX Xg oG 2 = Xg := by
+  simp only [weightedX, show Xg.length = 4 from rfl, List.range_succ, List.range_zero, List.nil_append, List.cons_append,
+    List.map_cons, List.map_nil]
+  simp
+  simp only [mk_mul, Fl.mk.injEq]
+  norm_num [r0, r1]
+
+theorem ext4 (H : List (Fl f64grid)) (a b c d : ℝ) (hl : H.length = 2 * 2) (h00 : (H[0]!).val = a) (h01 : (H[1]!).val = b)
+    (h10 : (H[2]!).val = c) (h11 : (H[3]!).val = d) : H = [⟨a⟩, ⟨b⟩, ⟨c⟩, ⟨d⟩] := by
+  rcases H with _ | ⟨g0, _ | ⟨g1, _ | ⟨g2, _ | ⟨g3, _ | _⟩⟩⟩⟩ <;> simp at hl
+  simp at h00 h01 h10 h11
+  simp only [List.cons.injEq, and_true]
+  exact ⟨Fl.ext h00, Fl.ext h01, Fl.ext h10, Fl.ext h11⟩
+
+theorem ext2 (H : List (Fl f64grid)) (a b : ℝ) (hl : H.length = 2) (h0 : (H[0]!).val = a) (h1 : (H[1]!).val = b) :
+    H = [⟨a⟩, ⟨b⟩] := by
+  rcases H with _ | ⟨g0, _ | ⟨g1, _ | _⟩⟩ <;> simp at hl
+  simp at h0 h1
+  simp only [List.cons.injEq, and_true]
+  exact ⟨Fl.ext h0, Fl.ext h1⟩
+
+theorem HGv : computeDdbeta Xg oG oG oG = some Xg := by
+  simp only [computeDdbeta, show oG.length = 2 from rfl, C05L.isMatrix_of_len (show Xg.length = 2 * 2 from rfl) (by norm_num),
+    wwG, Option.bind_eq_bind, Option.bind_some, wxG]
+  obtain ⟨c, h1, h2, h3⟩ := C05L.matmul_entry Xg Xg 2 2 2 2 true false rfl rfl (by norm_num) (by norm_num) rfl
+  rw [h1]
+  have e00 := h3 0 0 (by norm_num) (by norm_num)
+  have e01 := h3 0 1 (by norm_num) (by norm_num)
+  have e10 := h3 1 0 (by norm_num) (by norm_num)
+  have e11 := h3 1 1 (by norm_num) (by norm_num)
+  simp [C05L.cellFold, C05L.opEntry, List.range_succ] at e00 e01 e10 e11
+  congr 1
+  refine ext4 c _ _ _ _ (by simpa using h2) (by simp; rw [e00]; simp [r0, r1]) (by simp; rw [e01]; simp [r0])
+    (by simp; rw [e10]; simp [r0]) (by simp; rw [e11]; simp [r0, r1])
+
+theorem bigE : (4503599627370496 : Fl f64grid).val = 4503599627370496 := by
+  show f64grid.rnd ((4503599627370496 : ℕ) : ℝ) = _
+  norm_num [rE]
+
+theorem rEps' : f64grid.rnd (1 / 4503599627370496) = 1 / 4503599627370496 := by
+  have := grid_rnd_two_zpow 53 (by norm_num) (-52)
+  norm_num at this
+  exact this
+theorem rEps : f64grid.rnd (4503599627370496)⁻¹ = (4503599627370496)⁻¹ := by
+  rw [← one_div]; exact rEps'
+
+theorem HG_pred : routePredicate Xg = some true := by
+  unfold routePredicate isPositiveDefinite isSymmetric isExactlySymmetric
+  simp only [show Xg.length = 2 * 2 from rfl, isSquare_sq]
+  norm_num [List.range_succ, List.range', rd, eps, Fl.lt_def, Fl.le_def, r0, r1, bigE, rEps, rEps']
+
+theorem HG_chol : tryCholesky Xg = some (some Xg) := by
+  have hE : ¬ (4503599627370496 : Fl f64grid).val < 0 := by rw [bigE]; norm_num
+  unfold tryCholesky isSymmetric
+  simp only [show Xg.length = 2 * 2 from rfl, isSquare_sq]
+  norm_num [cholLoops, cholRow, List.range_succ, List.foldlM_cons, List.foldlM_nil, cholCell, List.replicate,
+    Fl.isNan_false, Fl.le_def, Fl.lt_def, rd, dot8, dot8Go, r0, r1, List.set, List.take, List.drop,
+    eps, List.range', ev, hE, bigE, rEps, rEps']
+  simp only [zero_mk, mk_sub, mk_div, mk_mul, mk_add, sqrt_mk, Fl.mk.injEq]
+  norm_num [r0, r1]
+
+theorem LG_t : LA.transpose Xg 2 = some Xg := by
+  unfold LA.transpose
+  simp only [show Xg.length = 4 from rfl, isM42, Option.bind_eq_bind, Option.bind_some, Option.pure_def]
+  norm_num [List.range_succ, rd]
+
+theorem LG_fwd : forwardSubstitution Xg oG = some oG := by
+  unfold forwardSubstitution
+  simp only [show Xg.length = 2 * 2 from rfl, isSquare_sq, Option.bind_eq_bind, Option.bind_some, Option.pure_def]
+  norm_num [List.range_succ, rd, dot8, dot8Go, List.take, List.drop]
+  simp only [zero_mk, mk_sub, mk_div, mk_mul, mk_add, Fl.mk.injEq]
+  norm_num [r0, r1]
+
+theorem LG_bwd : backwardSubstitution Xg oG = some oG := by
+  unfold backwardSubstitution
+  simp only [show Xg.length = 2 * 2 from rfl, isSquare_sq, Option.bind_eq_bind, Option.bind_some, Option.pure_def]
+  norm_num [List.range_succ, rd, dot8, dot8Go, List.take, List.drop]
+  simp only [zero_mk, mk_sub, mk_div, mk_mul, mk_add, Fl.mk.injEq]
+  norm_num [r0, r1]
+
+theorem LG_solve : choleskySolve Xg oG = some oG := by
+  unfold choleskySolve
+  simp only [show Xg.length = 2 * 2 from rfl, isSquare_sq, Option.bind_eq_bind, Option.bind_some, LG_fwd, LG_t, LG_bwd]
+  simp
+
+theorem routeG : route Xg = some (some Xg) := by simp [route, HG_pred, HG_chol]
+
+theorem HG_solve : solve Xg oG = some oG := by
+  unfold solve
+  simp [routeG, solveWith, LG_solve]
+
+/-- the computed linear predictor `X·β + offset` at `β = (2⁵⁵, 2⁵⁵)`, offset `−2⁵⁵`: exactly `0` -/
+theorem etaGv : linearPredictor Xg bG 2 2 (some offG) = some muG := by
+  obtain ⟨c, h1, h2, h3⟩ := C05L.matmul_entry Xg bG 2 2 2 1 false false rfl rfl (by norm_num) (by norm_num) rfl
+  have e0 := h3 0 0 (by norm_num) (by norm_num)
+  have e1 := h3 1 0 (by norm_num) (by norm_num)
+  simp [C05L.cellFold, C05L.opEntry, List.range_succ] at e0 e1
+  have hc : c = bG := ext2 c _ _ (by simpa using h2) (by simp; rw [e0]; simp [r0, rB])
+    (by simp; rw [e1]; simp [r0, rB])
+  simp only [linearPredictor, h1, hc, Option.bind_eq_bind, Option.bind_some]
+  rw [if_neg (by simp), C06L.vbin_eq _ bG offG rfl]
+  simp only [List.zipWith_cons_cons, List.zipWith_nil_right, mk_add, Option.some.injEq, List.cons.injEq, and_true,
+    Fl.mk.injEq]
+  norm_num [r0]
+
+/-- **a scoring step at the genuine binary64-significand model whose nonzero step is absorbed**: `δ̂ = (1, 1)`,
+`β = (2⁵⁵, 2⁵⁵)`, `β ⊖ δ̂ = β` (the exact difference `2⁵⁵ − 1` needs 55 digits) -/
+theorem stepG : scoringStep solve Xg yG oG (⟨0⟩ : Fl f64grid) 2 bG muG oG oG = some (oG, bG) := by
+  have hpen : penalised (⟨0⟩ : Fl f64grid) 2 bG oG Xg = (oG, Xg) := by
+    unfold penalised
+    rw [if_neg (show ¬ (0 : Fl f64grid) < ⟨0⟩ from lt_irrefl (0 : ℝ))]
+  unfold scoringStep
+  simp only [gGv, HGv, hpen, HG_solve, Option.bind_eq_bind, Option.bind_some]
+  rw [C06L.vbin_eq (· - ·) bG oG rfl]
+  simp only [List.zipWith_cons_cons, List.zipWith_nil_right, mk_sub, Option.pure_def, Option.bind_some,
+    Option.some.injEq, Prod.mk.injEq, List.cons.injEq, and_true, true_and, Fl.mk.injEq]
+  exact ⟨rAbs, rAbs⟩
+
+theorem hdG : ∀ g H, computeDbeta Xg yG muG oG oG oG = some g → computeDdbeta Xg oG oG oG = some H →
+    route (penalised (⟨0⟩ : Fl f64grid) 2 bG g H).2 = some none →
+    ∀ f piv, lu (penalised (⟨0⟩ : Fl f64grid) 2 bG g H).2 = some (f, piv) → ∀ k, k < 2 → ev 2 f k k ≠ 0 := by
+  intro g H _ hH hroute
+  have e1 : H = Xg := Option.some.inj (hH.symm.trans HGv)
+  have : (penalised (⟨0⟩ : Fl f64grid) 2 bG g H).2 = Xg := by
+    unfold penalised
+    rw [if_neg (show ¬ (0 : Fl f64grid) < ⟨0⟩ from lt_irrefl (0 : ℝ)), e1]
+  rw [this, routeG] at hroute
+  simp at hroute
+
+/-- `RoundingLU.solve_backward_error` at `u = 2⁻⁵³` on the concrete Cholesky-route solve `I·x = (1,1)` -/
+example := solve_backward_error Xg oG oG 2 rfl (le_refl 2) HG_solve (by rw [f64grid_u]; norm_num)
+
+/-- `Rounding7.scoringStep_system` / `scoring_fixed_point` at `u = 2⁻⁵³`, every hypothesis discharged -/
+example := scoringStep_system Xg yG oG bG muG oG oG (⟨0⟩ : Fl f64grid) 2 2 (by norm_num) (le_refl 2) rfl rfl rfl rfl rfl
+  rfl oG bG stepG (by rw [f64grid_u]; norm_num) (by rw [f64grid_u]; norm_num) hdG
+example := scoring_fixed_point Xg yG oG bG muG oG oG (⟨0⟩ : Fl f64grid) 2 2 (by norm_num) (le_refl 2) rfl rfl rfl rfl rfl
+  rfl rfl oG stepG (by rw [f64grid_u]; norm_num) (by rw [f64grid_u]; norm_num) hdG
+
+section exact
+open Cv.Rounding8
+noncomputable local instance : ExpLnStd f64grid := ExpLnStd.ofRnd f64grid
+
+theorem mapsG : muG.map (invLinkF Family.gaussian) = muG ∧
+    (muG.map (invLinkF Family.gaussian)).map (varF Family.gaussian) = oG := by
+  constructor
+  · show muG.map (fun η => η) = muG
+    simp
+  · rfl
+
+theorem stepG' : scoringStep solveSqrt Xg yG oG (⟨0⟩ : Fl f64grid) 2 bG (muG.map (invLinkF Family.gaussian))
+    ((muG.map (invLinkF Family.gaussian)).map (varF Family.gaussian))
+    ((muG.map (invLinkF Family.gaussian)).map (varF Family.gaussian)) = some (oG, bG) := by
+  rw [mapsG.2, mapsG.1]; exact stepG
+
+theorem hdG' : LuPivotsOk Xg yG oG bG (muG.map (invLinkF Family.gaussian))
+    ((muG.map (invLinkF Family.gaussian)).map (varF Family.gaussian))
+    ((muG.map (invLinkF Family.gaussian)).map (varF Family.gaussian)) (⟨0⟩ : Fl f64grid) 2 := by
+  rw [mapsG.2, mapsG.1]; exact hdG
+
+/-- **`Rounding8.fixed_point_exact_score` at the genuine model, `u = 2⁻⁵³`**: Gaussian family, identity design,
+offsets `−2⁵⁵`, `β = (2⁵⁵, 2⁵⁵)`; `η̂ = (0, 0)` is the computed (`etaGv`) AND the exact linear predictor, `y = (−1, −1)`;
+the Newton step `δ̂ = (1, 1)` is absorbed (`stepG`), so the iteration has converged in floating point although the
+exact score is `1` (next example) — every hypothesis of the theorem holds -/
+example := fixed_point_exact_score Family.gaussian (Or.inl rfl) Xg yG oG bG muG (some offG) (⟨0⟩ : Fl f64grid) 2 2
+  (by norm_num) (le_refl 2) rfl rfl rfl rfl rfl (by intro i hi; simp [varF]) oG stepG'
+  (by rw [f64grid_u]; norm_num) (by rw [f64grid_u]; norm_num)
+  (by show ((1 : Nat) : ℝ) * f64grid.u < 1; rw [f64grid_u]; norm_num) hdG'
+
+example : scoreExact Family.gaussian Xg yG oG bG 2 2 (some offG) (alphaEff (⟨0⟩ : Fl f64grid)) 0 = 1 := by
+  norm_num [scoreExact, etaExact, xv, muF, offv, Finset.sum_range_succ, alphaEff]
+
+end exact
+
+end Cv.RoundingGrid.Step
+
+/-! ### a concrete Yule–Walker fit at the genuine model -/
+
+namespace Cv.RoundingGrid.AR
+open Cv Cv.FlModel Cv.LA Cv.LA.Lu Cv.Rounding Cv.FactorRounding Cv.RoundingLU Cv.Rounding3 Cv.Rounding6 Finset
+open Cv.RoundingLU.Examples (mk_add mk_sub mk_mul mk_div)
+open Cv.RoundingGrid.Step
+
+noncomputable abbrev dA : List (Fl f64grid) := [⟨1⟩, ⟨0⟩, ⟨-1⟩, ⟨0⟩]
+
+theorem r4 : f64grid.rnd 4 = 4 := by simpa using rnd_int 4 (by norm_num)
+theorem r2 : f64grid.rnd 2 = 2 := by simpa using rnd_int 2 (by norm_num)
+theorem rq (m : ℤ) (j : ℕ) (hm : |m| ≤ 2 ^ 53) : f64grid.rnd ((m : ℝ) / 2 ^ j) = (m : ℝ) / 2 ^ j :=
+  grid_rnd_dyadic 53 (by norm_num) m j hm
+theorem rq4 : f64grid.rnd (1 / 4) = 1 / 4 := by have := rq 1 2 (by norm_num); norm_num at this; norm_num [this]
+theorem rq2 : f64grid.rnd (1 / 2) = 1 / 2 := by have := rq 1 1 (by norm_num); norm_num at this; norm_num [this]
+theorem rmq4 : f64grid.rnd (-1 / 4) = -1 / 4 := by have := rq (-1) 2 (by norm_num); norm_num at this; norm_num [this]
+theorem rmq2 : f64grid.rnd (-1 / 2) = -1 / 2 := by have := rq (-1) 1 (by norm_num); norm_num at this; norm_num [this]
+
+theorem rmq4' : f64grid.rnd (-(1 / 4)) = -(1 / 4) := by have := rmq4; rw [neg_div] at this; exact this
+theorem rmq2' : f64grid.rnd (-(1 / 2)) = -(1 / 2) := by have := rmq2; rw [neg_div] at this; exact this
+theorem one_mk : (1 : Fl f64grid) = ⟨1⟩ := rfl
+theorem neg_mk (a : ℝ) : -(⟨a⟩ : Fl f64grid) = ⟨-a⟩ := rfl
+theorem natCast_mk (n : ℕ) : ((n : ℕ) : Fl f64grid) = ⟨f64grid.rnd n⟩ := rfl
+
+theorem powi2 (x : Fl f64grid) : powi x 2 = 1 * (x * x) := rfl
+
+theorem meanA : TS.mean dA = ⟨0⟩ := by
+  apply Fl.ext
+  norm_num [TS.mean, sum8, sum8Go, r0, r1]
+
+/-- the autocorrelations `ρ̂₀, ρ̂₁, ρ̂₂` of `(1, 0, −1, 0)`: every operation is exact -/
+theorem acfA : TS.fitAcf 2 dA = [⟨1⟩, ⟨0⟩, ⟨-1 / 2⟩] := by
+  have hadj : dA.map (· - TS.mean dA) = dA := by
+    rw [meanA]
+    simp only [List.map_cons, List.map_nil, mk_sub, List.cons.injEq, and_true, Fl.mk.injEq]
+    norm_num [r0, r1, rm1]
+  unfold TS.fitAcf
+  simp only [hadj]
+  simp only [List.range_succ, List.range_zero, List.nil_append, List.cons_append, List.map_cons, List.map_nil, TS.acf, meanA]
+  simp only [show dA.length = 4 from rfl, natCast_mk, powi2, one_mk, zero_mk, TS.iterSum, TS.lagProducts,
+    Int.natAbs_natCast, List.drop, List.zipWith_cons_cons, List.zipWith_nil_left, List.zipWith_nil_right,
+    List.foldl_cons, List.foldl_nil, neg_mk, mk_sub, mk_mul, mk_add, mk_div]
+  norm_num [r0, r1, rm1, r2, r4, rq4, rq2, rmq4, rmq2, rmq4', rmq2']
+
+theorem toepA : TS.toeplitz ([⟨1⟩, ⟨0⟩] : List (Fl f64grid)) = Xg := by
+  simp [TS.toeplitz, Mat.build, List.range_succ]
+
+theorem idA : (identity 2 : List (Fl f64grid)) = Xg := by
+  simp [identity, List.range_succ, one_mk, zero_mk]
+
+theorem r2c : rowToColMajor Xg 2 = some Xg := by
+  unfold rowToColMajor
+  simp only [show Xg.length = 4 from rfl, isM42, Option.bind_eq_bind, Option.bind_some, Option.pure_def]
+  norm_num [List.range_succ, rd]
+
+theorem c2r : colToRowMajor Xg 2 = some Xg := by
+  unfold colToRowMajor
+  simp only [show Xg.length = 4 from rfl, isM42, Option.bind_eq_bind, Option.bind_some, Option.pure_def]
+  norm_num [List.range_succ, rd]
+
+theorem solveE (a b : ℝ) (ha : f64grid.rnd a = a) (hb : f64grid.rnd b = b) :
+    choleskySolve Xg [⟨a⟩, ⟨b⟩] = some [⟨a⟩, ⟨b⟩] := by
+  have fwd : forwardSubstitution Xg [⟨a⟩, ⟨b⟩] = some [⟨a⟩, ⟨b⟩] := by
+    unfold forwardSubstitution
+    simp only [show Xg.length = 2 * 2 from rfl, isSquare_sq, Option.bind_eq_bind, Option.bind_some, Option.pure_def]
+    norm_num [List.range_succ, rd, dot8, dot8Go, List.take, List.drop]
+    simp only [zero_mk, mk_sub, mk_div, mk_mul, mk_add, Fl.mk.injEq]
+    norm_num [r0, r1, ha, hb]
+  have bwd : backwardSubstitution Xg [⟨a⟩, ⟨b⟩] = some [⟨a⟩, ⟨b⟩] := by
+    unfold backwardSubstitution
+    simp only [show Xg.length = 2 * 2 from rfl, isSquare_sq, Option.bind_eq_bind, Option.bind_some, Option.pure_def]
+    norm_num [List.range_succ, rd, dot8, dot8Go, List.take, List.drop]
+    simp only [zero_mk, mk_sub, mk_div, mk_mul, mk_add, Fl.mk.injEq]
+    norm_num [r0, r1, ha, hb]
+  unfold choleskySolve
+  simp only [show Xg.length = 2 * 2 from rfl, isSquare_sq, Option.bind_eq_bind, Option.bind_some, fwd, LG_t, bwd]
+  simp
+
+theorem colsA : solveCols 2 (choleskySolve Xg) Xg 2 = some Xg := by
+  simp [solveCols, solveE _ _ r1 r0, solveE _ _ r0 r1]
+
+theorem invA : invertMatrix Xg = some Xg := by
+  unfold invertMatrix solveSys
+  simp only [show Xg.length = 2 * 2 from rfl, isSquare_sq, Option.bind_eq_bind, Option.bind_some, idA, r2c, routeG]
+  rw [show LA.isMatrix (2 * 2) 2 = some 2 by decide]
+  simp only [Option.bind_some, colsA, c2r]
+
+theorem mmA : matmul Xg ([⟨0⟩, ⟨-1 / 2⟩] : List (Fl f64grid)) 2 2 false false = some [⟨0⟩, ⟨-1 / 2⟩] := by
+  obtain ⟨c, h1, h2, h3⟩ := C05L.matmul_entry Xg ([⟨0⟩, ⟨-1 / 2⟩] : List (Fl f64grid)) 2 2 2 1 false false rfl rfl
+    (by norm_num) (by norm_num) rfl
+  have e0 := h3 0 0 (by norm_num) (by norm_num)
+  have e1 := h3 1 0 (by norm_num) (by norm_num)
+  simp [C05L.cellFold, C05L.opEntry, List.range_succ] at e0 e1
+  rw [h1]
+  congr 1
+  exact ext2 c _ _ (by simpa using h2) (by simp; rw [e0]; simp [r0]) (by simp; rw [e1]; norm_num [r0, rmq2, rmq2'])
+
+/-- **a concrete Yule–Walker fit at the genuine binary64-significand model**: `AR(2)` on `(1, 0, −1, 0)` returns
+intercept `0` and stored coefficients `(−1/2, 0)` (every operation of this run is exact) -/
+theorem arA : TS.arFit 2 dA = some (⟨0⟩, [⟨-1 / 2⟩, ⟨0⟩]) := by
+  unfold TS.arFit
+  rw [if_neg (by norm_num)]
+  simp only [acfA, List.take, List.drop, toepA, invA, mmA, Option.bind_eq_bind, Option.bind_some, meanA, Option.pure_def,
+    List.reverse_cons, List.reverse_nil, List.nil_append, List.cons_append]
+
+/-- `Rounding6.yuleWalker_residual` at `u = 2⁻⁵³` on that run: `p = 2`, the Toeplitz system is routed to Cholesky
+(so the hypothesis on LU pivots is void), every hypothesis holds -/
+example := yuleWalker_residual 2 dA ⟨0⟩ [⟨-1 / 2⟩, ⟨0⟩] (le_refl 2) arA (by rw [f64grid_u]; norm_num)
+  (by
+    intro h
+    rw [acfA] at h
+    simp only [List.take] at h
+    rw [toepA, routeG] at h
+    simp at h)
+
+end Cv.RoundingGrid.AR
+
+/-! ### range theorems with underflow at the genuine model -/
+
+namespace Cv.RoundingGrid.Ufl
+open Cv Cv.FlModel Cv.Rounding Cv.Rounding3U
+open Cv.RoundingGrid.Step (r1)
+
+/-- a libm that flushes `exp` to zero below `−745` (as IEEE binary64 does) on the genuine 53-digit model -/
+noncomputable local instance : ExpLnUfl f64grid := ExpLnUfl.flush f64grid (-745) (by norm_num)
+
+/-- `logistic_range_ufl` at the genuine model: `Monotone rnd` and `rnd 1 = 1` are theorems about round-to-nearest
+(`f64grid_mono`, `grid_rnd_one`), so the computed logistic lies in `[0, 1]` for EVERY argument -/
+example (x : Fl f64grid) : 0 ≤ (logistic x).val ∧ (logistic x).val ≤ 1 :=
+  logistic_range_ufl f64grid_mono r1 x
+
+/-- and `[0, 1]` cannot be improved to `(0, 1)`: at `x = 800` the value is exactly `1` -/
+example : (logistic (⟨800⟩ : Fl f64grid)).val = 1 := by
+  show f64grid.rnd (1 / f64grid.rnd (1 + (if (-(800 : ℝ)) < -745 then 0 else Real.exp (-(800 : ℝ))))) = 1
+  rw [if_pos (by norm_num), add_zero, r1, div_one, r1]
+
+/-- `rbf_range_ufl` at the genuine model -/
+example (k : Gp.RBF (Fl f64grid)) (x y : Fl f64grid) (hv : 0 ≤ k.var.val) :
+    0 ≤ (k.fwd x y).val ∧ (k.fwd x y).val ≤ k.var.val * (1 + f64grid.u) := rbf_range_ufl k x y hv
+
+end Cv.RoundingGrid.Ufl
